@@ -3,7 +3,7 @@
 # set with BASELINE.json's stable_pass list.  usage: tools/suite.sh [repo-dir]
 REPO="${1:-/repo}"
 OUT=$(mktemp -d)
-cd "$REPO" && env -u NUMBERS_PARSER_VERIF -u PYTHONPATH /venv/bin/python -m pytest -q -p no:cacheprovider --no-cov -n 16 --timeout=900 \
+cd "$REPO" && env -u NUMBERS_PARSER_VERIF PYTHONPATH="$REPO/src" /venv/bin/python -m pytest -q -p no:cacheprovider --no-cov -n 16 --timeout=900 \
    --continue-on-collection-errors --junitxml="$OUT/j.xml" >"$OUT/log" 2>&1
 /venv/bin/python - "$OUT/j.xml" <<'P'
 import sys, json, xml.etree.ElementTree as ET
